@@ -25,7 +25,13 @@ import (
 	"time"
 )
 
-const V = "/verif"
+// V is the root of the verification tree (the directory of ./check).
+var V = func() string {
+	if v := os.Getenv("VERIF_HOME"); v != "" {
+		return v
+	}
+	return "/verif"
+}()
 
 type violation struct {
 	Property string            `json:"property"`
